@@ -1,7 +1,7 @@
 from vlib.core import *
 
 META = dict(
-    level_text="Exact-arithmetic / discrete content proved for all sizes and inputs: (c02_residual) a pair handed back satisfies A x - theta x = y_last f for complex theta, y over the real Arnoldi relation, so the flag test of num_converged bounds its norm; (c02_unit) ||x|| = ||y|| when V'V = I; (c02_realshift) lambda = sigma + 1/nu inverts nu = 1/(lambda - sigma), the residual identity of the shifted operator, and for EVERY kernel record every value returned by eigenvalues() after sort_ritzpair is a back-transformed Ritz value (never a value of the transformed spectrum), instantiated for the executable general-solver kernel; (c02_quadratic) nu = (1/(lambda-sigma) + 1/(lambda-conj sigma))/2 iff lambda is a root of the code's quadratic, whose two roots are exactly root_part1 +- root_part2; boundary lemma behind F14; (c02_pairs) the conjugate-pair loop of GenEigsComplexShiftSolver::sort_ritzpair writes every slot exactly once and leaves in every slot that slot's own eigenvalue PROVIDED complex values are adjacent exact conjugates (P1) and the pair test fires exactly on them (P2); machine-checked counter-models without P1 / P2; (c02_restart_schedule) under P1 the single/double-shift loop of GenEigsBase::restart applies every unwanted Ritz value exactly once; unconditionally (c02_restart_reads_in_range, the loop as repaired by c0124c3) it reads only indices < ncv, consumes every unwanted slot once and leaves m_k = k; without P1 exactly the unpaired complex values are applied as real shifts (c02_restart_unpaired). The SAME definitions (Model/GenSolver.lean: an Orch.Kern built from the Arnoldi, UpperHessenbergQR, DoubleShiftQR, UpperHessenbergEigen models and the source-translated nev_adjusted / is_complex / is_conj / sort keys / SimpleRandom) are run at Float against the real GenEigsSolver, GenEigsRealShiftSolver and GenEigsComplexShiftSolver on histories of at most four init/compute calls: return value, status, counters, eigenvalues, probe shift and a hash of the whole factorization object agree bit for bit, eigenvectors up to the final matrix-matrix product. The property's own predicate (residual with stated constants and exact back-transformation factors, unit norm, lambda in the spectrum of A by Bauer-Fike against a long-double dense reference, no duplicated simple eigenvalue, operator left at the user's shift) is evaluated on every pair handed back over the ten matrix classes of the quantifier.",
+    level_text="Exact-arithmetic / discrete content proved for all sizes and inputs: (c02_residual) a pair handed back satisfies A x - theta x = y_last f for complex theta, y over the real Arnoldi relation, so the flag test of num_converged bounds its norm; (c02_unit) ||x|| = ||y|| when V'V = I; (c02_realshift) lambda = sigma + 1/nu inverts nu = 1/(lambda - sigma), the residual identity of the shifted operator, and for EVERY kernel record every value returned by eigenvalues() after sort_ritzpair is a back-transformed Ritz value (never a value of the transformed spectrum), instantiated for the executable general-solver kernel; (c02_quadratic) nu = (1/(lambda-sigma) + 1/(lambda-conj sigma))/2 iff lambda is a root of the code's quadratic, whose two roots are exactly root_part1 +- root_part2; boundary lemmas behind F14 (a real nu with negative discriminant has both roots lambda, conj lambda for the SAME nu); (c02_pairs) the conjugate-pair loop of GenEigsComplexShiftSolver::sort_ritzpair, whose pair test is made on the transformed Ritz value nu (repair of F14), writes every slot exactly once and, PROVIDED complex Ritz values are adjacent exact conjugates (P1), overwrites with conj(lambda) only the slot that held conj(nu); every slot ends with its own eigenvalue when the root selection commutes with conjugation (c02_pairs_own; the quadratic does: c02_quadratic_conj); no hypothesis on the selected roots is left (the former P2), the former P2 counter-model is now an example of the repaired behaviour; machine-checked counter-model without P1; (c02_restart_schedule) under P1 the single/double-shift loop of GenEigsBase::restart applies every unwanted Ritz value exactly once; unconditionally (c02_restart_reads_in_range, the loop as repaired by c0124c3) it reads only indices < ncv, consumes every unwanted slot once and leaves m_k = k; without P1 exactly the unpaired complex values are applied as real shifts (c02_restart_unpaired). The SAME definitions (Model/GenSolver.lean: an Orch.Kern built from the Arnoldi, UpperHessenbergQR, DoubleShiftQR, UpperHessenbergEigen models and the source-translated nev_adjusted / is_complex / is_conj / sort keys / SimpleRandom) are run at Float against the real GenEigsSolver, GenEigsRealShiftSolver and GenEigsComplexShiftSolver on histories of at most four init/compute calls: return value, status, counters, eigenvalues, probe shift and a hash of the whole factorization object agree bit for bit, eigenvectors up to the final matrix-matrix product. The property's own predicate (residual with stated constants and exact back-transformation factors, unit norm, lambda in the spectrum of A by Bauer-Fike against a long-double dense reference, no duplicated simple eigenvalue, operator left at the user's shift) is evaluated on every pair handed back over the ten matrix classes of the quantifier.",
     note="Lean kernel + propext/Classical.choice/Quot.sound; translator; rounding and convergence are NOT proved (residual clause 'plus a rounding-level multiple of ||A||', convergence of the restarted iteration, correctness of the root selection by probing: oracle only); P1 (conjugate Ritz values adjacent after sorting) is a hypothesis: it holds for the Ritz values of UpperHessenbergEigen by c09_conj_compute before sorting, and std::sort keeps pairs adjacent only without key ties (F9); std::sort modelled as stable insertion sort (exact up to 16 elements: correspondence cases have ncv <= 16); libstdc++/libgcc/glibc complex arithmetic (operator/, sqrt, hypot) re-implemented in the model and pinned by the ckern stream; float/long double: scalar-generic theorems and the double oracle only",
     technique="Lean 4 proof (matrix algebra over a field with an embedded real subfield; induction over the pair loop and the shift loop, all comparisons arbitrary) + bit-exact differential correspondence of the executable instance through Orch.compute + long-double oracle against a dense reference",
     design="§5 C02", harnesses=['c02'])
@@ -45,7 +45,7 @@ def run(tier, seed, replay=None):
         'the complex-shift operator is an explicit matrix Re[(A - sigma I)^-1] computed by the harness in long double for every shift the solver installs',
         'dense reference: Eigen::EigenSolver<long double>']
     R.assumptions = ['compute() is called after at least one init()', 'A - sigma I nonsingular with |lambda - sigma| >= 0.03 spectral radius for the shift solvers (shift-and-invert domain)',
-                     'c02_pairs / c02_restart_schedule assume P1 (adjacent exact conjugates) and P2 (pair test fires exactly on complex values); P2 fails on the real code for the inputs of finding F14 (both triggers); P1 failed with an out-of-range read until /repo commit c0124c3 (F9)']
+                     'c02_pairs / c02_restart_schedule assume P1 (adjacent exact conjugates: UpperHessenbergEigen convention, kept by std::sort only without key ties above 16 elements); the former hypothesis P2 is gone with the repair of F14 (pair test on nu); P1 failed with an out-of-range read until /repo commit c0124c3 (F9)']
     if replay:
         exe, log = build_harness('c02')
         if exe is None:
